@@ -372,6 +372,27 @@ def run(P, R, tier):
                     'so a file just written as a target is deleted and its rows are lost', construct='bulk renumbering removes targets')
         if not bulk:
             R.floor('C10.c', 'compaction move sites', len(mv), 1)
+    # the empty-partition sentinel: the driver drops the results it recognises as "this output partition got no rows" and renumbers the rest.  Producer and
+    # filter must agree on what that result looks like: a filter on `is not None` over results that are never None keeps every partition, empty ones included
+    nsent = 0
+    for comp in [x for x in walk_own(F.node) if isinstance(x, (ast.ListComp, ast.GeneratorExp)) and len(x.generators) == 1 and x.generators[0].ifs]:
+        gen = comp.generators[0]
+        tvars = {n_.id for n_ in ast.walk(gen.target) if isinstance(n_, ast.Name)}
+        for t_ in gen.ifs:
+            var = None
+            if isinstance(t_, ast.Compare) and len(t_.ops) == 1 and isinstance(t_.ops[0], ast.IsNot) and norm(t_.comparators[0]) == 'None' and isinstance(t_.left, ast.Name):
+                var, kind = t_.left.id, 'is not None'
+            if var is None or var not in tvars:
+                continue
+            prods = [g for g in F.nested.values() if g.name in astq.sources(F, gen.iter)]
+            for g in prods:
+                nsent += 1
+                rets = [r_ for r_ in walk_own(g.node) if isinstance(r_, ast.Return)]
+                may_none = any(r_.value is None or norm(r_.value) == 'None' for r_ in rets)
+                R.check(may_none, 'C10.c', g, rets[0] if rets else None, f'{g.name} can answer None, the result the driver drops as an empty partition',
+                        f'the driver keeps the results of {g.name} that are `{kind}`, but {g.name} never returns None: output partitions without rows are not dropped, so the part files are not '
+                        'renumbered contiguously (part.0, part.4, part.5 ...) or zero-row part files are kept', construct='empty-partition sentinel agreement')
+    R.floor('C10.c', 'empty-partition filters matched with their producer', nsent, 1)
     # after the renumbering the part files carry their FINAL names: the names they were written under (the sources of the moves) are stale.  Reading
     # "the first written part" through such a name fails (or reads another run's file) exactly when part 0 stayed empty and the first file was renamed
     for c in mv:
@@ -427,6 +448,14 @@ def run(P, R, tier):
         R.check(ok, 'C10.c', F, c, 'compaction moves the i-th non-empty part to the i-th final name',
                 'compaction does not move (source i -> final name i): ' + detail)
 
+    # the temp directory template is the caller's (or the default under the dataset): the directories that are created from it are exactly the ones that are
+    # removed.  A template that is extended on the way (a sub-directory appended) creates parents that nothing removes
+    for st in walk_own(F.node):
+        if isinstance(st, (ast.Assign, ast.AugAssign)) and any(isinstance(t_, ast.Name) and t_.id == 'tempdir_format' for t_ in (st.targets if isinstance(st, ast.Assign) else [st.target])):
+            self_ref = 'tempdir_format' in astq.names_in(st.value)
+            R.check(not self_ref, 'C10.a', F, st, 'tempdir_format is only defaulted, never extended',
+                    f'`{norm(st)[:90]}` extends the temp directory template: the directories formatted from the caller\'s template become parents of the ones that are used and removed, '
+                    'and are left behind', construct='tempdir_format extended')
     # ---------------------------------------------------------------- C10.d validation before use
     uses = [s for s in walk_own(F.node) if isinstance(s, ast.Call) and isinstance(s.func, ast.Attribute) and s.func.attr == 'format'
             and isinstance(s.func.value, ast.Name) and s.func.value.id == 'tempdir_format']
